@@ -40,6 +40,12 @@ def gen_scenario(R, size="small", max_items=3):
             "sub": [{"out": R.choice(["ok", "ok", "ok", "SubscribeError", "FailureError", "RuntimeError"]), "inside": inside_events()} for _ in range(8)],
             "usb": [{"out": R.choice(["ok", "ok", "ok", "SubscribeError", "RuntimeError"]), "inside": inside_events() if R.random() < 0.3 else []} for _ in range(8)],
         }
+    # some subscribe() calls hand their events to a helper thread of the adapter and wait for it before returning
+    # (the usual "push the snapshot from a worker, then return" pattern)
+    for it in items:
+        for entry in script[it]["sub"]:
+            if entry["inside"] and R.random() < 0.3:
+                entry["helper"] = True
     ext = []
     for _ in range(R.choice([0, 0, 1, 1, 2])):
         ext.append([gen_event(R, items) for _ in range(R.choice([1, 2, 4]))])
@@ -112,6 +118,7 @@ def run_real(scn, choose):
     registry = {}          # item -> [manager objects in creation order]
     cur = {"rid": None, "held": None}
     counters = {}
+    helpers = [0]
     orig_init = SUBM._ItemTaskManager.__init__
     orig_sub, orig_usb = S.DataProviderServer._on_sub, S.DataProviderServer._on_usb
 
@@ -183,10 +190,22 @@ def run_real(scn, choose):
             entry = sc[k % len(sc)]
             if m == "snap":
                 entry = {"out": entry, "inside": []}
-            for ev in entry["inside"]:
-                lsn_call(self.listener, ev)
             out = entry["out"]
-            sched.park(("aend", m, item, out))
+            if entry.get("helper") and entry["inside"]:
+                # an adapter-owned helper thread submits the events; the call returns only when it is done
+                flag = [False]
+                helpers[0] += 1
+
+                def body(evs=entry["inside"], flag=flag):
+                    for ev in evs:
+                        lsn_call(self.listener, ev)
+                    flag[0] = True
+                sched.spawn("E%d" % (20 + helpers[0]), body)
+                sched.park(("aend", m, item, out), cond=lambda: flag[0])
+            else:
+                for ev in entry["inside"]:
+                    lsn_call(self.listener, ev)
+                sched.park(("aend", m, item, out))
             sched.event("ae", m, item, out)
             if out in ("SubscribeError", "FailureError", "RuntimeError"):
                 raise make_exc(out, "%s failed for %s #%d" % (m, item, k))
@@ -255,8 +274,12 @@ def run_real(scn, choose):
         sched.snapshot = None
         chunks = []
         # run chunk by chunk so that `held` can be maintained from the reader's operations
+        hard_limit = 200000 if scn.get("fine_seed") is not None else 6000
         while True:
             before = len(sched.chunks)
+            if before >= hard_limit:
+                status = "limit"          # e.g. a timed writer that never comes to rest: not quiescent, reported as such
+                break
             sched.max_chunks = before + 1
             status = sched.run()
             if len(sched.chunks) == before:
@@ -270,6 +293,8 @@ def run_real(scn, choose):
                 else:
                     cur["held"] = None
             ch["snap"] = snapshot()
+            ch["blocked_after"] = [t.name for t in sched.threads.values()
+                                   if not t.done and t.op and t.op[0] == "aend" and t.cond is not None and not t.cond()]
             # a library thread waiting for a lock whose owner sits inside an adapter call (C18: no lock may be held across one)
             for t in sched.threads.values():
                 lk = t.meta.get("want_lock")
@@ -285,7 +310,7 @@ def run_real(scn, choose):
                 for it in scn["items"]:
                     lsn_call(srv._adapter.listener, {"kind": "upd", "item": it, "snap": False, "ev": {"probe": "1"}})
             sched.spawn("E9", probe)
-            while True:
+            while len(sched.chunks) < hard_limit + 2000:
                 before = len(sched.chunks)
                 sched.max_chunks = before + 1
                 status = sched.run()
@@ -345,6 +370,8 @@ def driver_lines(run):
                 o = "tstart"
             else:
                 skip = True
+        elif kind == "after-start":
+            skip = True           # the creator continues after Thread.start(): no model-relevant operation of its own
         elif kind == "task-start":
             o = "start"
         elif kind == "lock":
@@ -416,7 +443,8 @@ def driver_lines(run):
                 effs.append("ae:%s:%s" % (e[1], C.hx(e[2])))
             elif e[0] == "sent":
                 effs.append("sent:" + C.hx(strip_ts(e[1].decode("utf-8"))))
-        nxt = chunks[n + 1]["enabled"] if n + 1 < len(chunks) else run.final_enabled
+        nxt = list(chunks[n + 1]["enabled"] if n + 1 < len(chunks) else run.final_enabled)
+        nxt += [b for b in ch.get("blocked_after", []) if b not in nxt]      # inside an adapter call that waits: the adapter's business
         en = ",".join(sorted((x for x in nxt if LIB.match(x)), key=lambda x: (0, 0) if x == "R" else (2, 0) if x == "W" else (1, int(x[1:]))))
         lines.append("k %s %s ; %s ; %s ; %s" % (tid, o, " ".join(effs), en, C.hx(ch["snap"])))
         idx.append(n)
@@ -570,6 +598,12 @@ def oracle_c02(run, A, V):
                     V("skip-without-later-request", "SUB %s for %s skipped although no later request for the item had arrived" % (rid, item))
             if i == len(rids) - 1 and tk["kind"] != "do":
                 V("latest-sub-skipped", "SUB %s is the latest request for %s but was skipped" % (rid, item))
+        # "a subscription request that is the latest request received for its item is always executed": once everything has
+        # come to rest, the item's last request, if it arrived and is a SUB, has been executed (not stranded in the queue)
+        if run.status == "quiescent" and rids and rids[-1] in A.arrive and A.req[rids[-1]]["method"] == "SUB" \
+                and all(r in A.arrive for r in rids) and A.task.get(rids[-1]) is None:
+            V("latest-sub-never-executed", "SUB %s is the latest request received for %s and nothing is running any more, but it was never "
+              "executed (no subscribe call, no reply): stranded in the item's queue" % (rids[-1], item))
         # an unsubscription after a failed / skipped subscription makes no call
         for i, rid in enumerate(rids):
             if A.req[rid]["method"] == "USB" and rid in A.task and i > 0:
@@ -707,13 +741,19 @@ def oracle_c16(run, A, V):
     sent_lines = "".join(A.sent).split("\r\n")
     if sent_lines and sent_lines[-1] == "":
         sent_lines.pop()
-    enq = [m for _, _, m in A.enq]
+    # what the producers submitted, in submission order (anything the writer thread itself puts back into its queue is its
+    # own business: only what reaches the wire counts)
+    enq = [m for _, tid, m in A.enq if tid != "W"]
     if sent_lines != enq:
-        V("outbound-not-fifo", "lines written differ from the messages enqueued (in order): %d written, %d enqueued" % (len(sent_lines), len(enq)))
-    for _, b in run.sent:
-        s = b.decode("utf-8")
-        if not s.endswith("\r\n") or "\n" in s[:-2] or "\r" in s[:-2]:
-            V("outbound-not-one-line", "a write is not exactly one CRLF-terminated line: %r" % s[:80])
+        k = next((i for i, (a, b) in enumerate(zip(sent_lines, enq)) if a != b), min(len(sent_lines), len(enq)))
+        V("outbound-not-fifo", "lines written differ from the messages submitted (in order): %d written, %d submitted; first difference at "
+          "position %d: written %r, submitted %r" % (len(sent_lines), len(enq), k, (sent_lines[k:k + 1] or [None])[0][:60] if sent_lines[k:k + 1] else None,
+                                                     (enq[k:k + 1] or [None])[0][:60] if enq[k:k + 1] else None))
+    # how the byte stream is cut into writes is not the property's business (several whole lines in one write, or a line
+    # completed by a later write of the same thread, are fine on a stream socket); the stream must consist of whole lines
+    total = "".join(A.sent)
+    if total and not total.endswith("\r\n"):
+        V("outbound-partial-line", "the bytes written end in the middle of a line: %r" % total[-60:])
 
 
 def oracle_c19(run, A, V):
